@@ -13,6 +13,7 @@ That an interrupted `write_text` leaves a *prefix* of the document (and what two
 operating-system behaviour: the model covers arbitrary prefixes, the thorough tier samples real SIGKILLs.
 -/
 import Alos2.Proofs.Flow
+import Alos2.Proofs.BridgeTotal
 
 namespace Alos2.C09
 
@@ -28,6 +29,25 @@ theorem repair (E : Env) (h : EnvOK E) (s : CState) (rw k r : Nat) (hk : k < (do
     (hloc : s.loc = some ((docText (E.U rw)).take k)) :
     (openImage E s true true r).state.loc = some (docText (E.U r)) :=
   openImage_repairs E h s rw k r hk hloc
+
+/-- the same for the CONCRETE environment of an image file (no assumption about the groups left — C07
+    `cache_transparent_for_every_image`): for every image file that opens with at least one line record, all of one kind, and
+    instants inside 1970 … 2262, whatever prefixes of index documents (written for any chunk sizes, cut anywhere) lie at the two
+    cache locations, every open returns the uncached group at its chunk size -/
+theorem concrete_open_after_crash (fr : FloatRepr) (hfr : fr.OK) (loads : List Char → Except Err PyVal)
+    (hJ1 : ∀ d : PyVal, d.TupleFree = true → d.WF = true → loads (dump d) = .ok d)
+    (hJ2 : ∀ t : List Char, (¬ Balanced t ∨ t = []) → ∃ e, loads t = .error e)
+    (root : String) (file : Bytes) (name : String) (gname : String) (g : ImageGroup)
+    (h : openImageFile file name 1 = .ok (gname, g))
+    (header : Val) (recs : List Val) (hr : readImageRecords file 1 = .ok (header, recs)) (hn : 0 < recs.length)
+    (hk : (∀ r ∈ recs, IsLineRecord Gen.processedDataRecord r) ∨ (∀ r ∈ recs, IsLineRecord Gen.signalDataRecord r))
+    (hd : DatesInRange g = true) :
+    ∃ cg, bridge fr root name gname g = some cg ∧
+      ∀ (s : CState), Inv { U := fun r => cg.withRpc r, loads := loads } s → ∀ (use create : Bool) (r : Nat),
+        (openImage { U := fun r => cg.withRpc r, loads := loads } s use create r).result = .ok (cg.withRpc r) := by
+  obtain ⟨cg, hb⟩ := bridge_total fr root file name 1 gname g h header recs hr hn hk hd
+  have hE := concrete_env_ok fr hfr loads hJ1 hJ2 root file name gname g cg h hb header recs hr hn hk (datesInRange_datesOK g hd)
+  exact ⟨cg, hb, fun s hs use create r => open_after_crash _ hE s hs use create r⟩
 
 /-- non-vacuity: `{"a": [1, "x]"]}` cut inside the string is not balanced; the whole text is -/
 example : ¬ Balanced ("{\"a\": [1, \"x]".toList) := by unfold Balanced; decide
